@@ -99,7 +99,8 @@ class Problem:
                     ws[1] + perturb * (jax.random.normal(jax.random.fold_in(k1, 1), ws[1].shape) + 1j * jax.random.normal(jax.random.fold_in(k2, 1), ws[1].shape)),
                 ]
             pd = self.prop.orthonormalize_walkers(pd)
-            pd["overlaps"] = self.trial.calc_overlap(pd["walkers"], self.wave_data)
+            # energies / overlaps / shift of the perturbed population, exactly as a user-supplied init_walkers would get them
+            pd = self.prop.init_prop_data(self.trial, self.wave_data, hd, pd["walkers"])
         pd["key"] = key
         return pd
 
